@@ -9,5 +9,6 @@ mkdir -p "$OUT"
 cd "$ROOT/engine"
 cp "$REPO/go.sum" go.sum 2>/dev/null || true
 go build -o "$OUT/vrewrite" ./cmd/vrewrite
+rm -rf "$OUT/rw"
 "$OUT/vrewrite" -repo "$REPO" -out "$OUT/rw" -hooks "$ROOT/hooks" "$@" >/dev/null
 go build -overlay "$OUT/rw/overlay.json" -tags verif -o "$OUT/verif" ./cmd/verif
